@@ -56,6 +56,9 @@ func BigDecimalFloatToBigInt(value *apd.Decimal, maxBase10Exponent int) (*big.In
 
 func BigDecimalFloatToUint(value *apd.Decimal) (uint64, error) {
 	if i, err := value.Int64(); err == nil {
+		if i < 0 {
+			return 0, fmt.Errorf("%v is negative and cannot fit into type uint64", value)
+		}
 		return uint64(i), nil
 	}
 
